@@ -318,7 +318,7 @@ fn write_connless_packet<'a, B: Buffer<'a>>(
             token,
             response_token,
         } = *packet;
-        if payload.len() > MAX_PAYLOAD {
+        if payload.len() > MAX_PACKETSIZE - HEADER_SIZE_CONNLESS {
             return Err(Error::TooLongData);
         }
         let header = PacketHeaderConnless {
